@@ -13,6 +13,7 @@ CONSTANTS
   Classes <- AllClasses
   Defect_PruneAfterFailedIngest = FALSE
   Defect_PruneFlagSkipsLatestCheck = TRUE
+  Defect_LogIdFromTopicUnchecked = FALSE
 INVARIANTS
   C05_NoResurrection
 VIEW NoHistView
